@@ -149,6 +149,20 @@ def fresh_dir(name: str) -> Path:
     return p
 
 
+_PROC_DIRS = {}
+
+
+def proc_dir(name: str) -> Path:
+    """Per-process scratch directory, created once per process (safe across fork)."""
+    key = (os.getpid(), name)
+    if key not in _PROC_DIRS:
+        _PROC_DIRS[key] = fresh_dir(name)
+    p = _PROC_DIRS[key]
+    if not p.exists():
+        p.mkdir(parents=True)
+    return p
+
+
 def cleanup_sandbox():
     global _BASE
     if _BASE is not None and _BASE[0] == os.getpid():
